@@ -270,7 +270,13 @@ impl Mux {
                         length -= size;
                     }
                 }
-                _ => unreachable!("bad FrameKind"),
+                // Both frame kind bits set: not a valid frame kind, the peer violates the protocol.
+                kind => {
+                    return Err(RunError::Protocol(anyhow::format_err!(
+                        "bad frame kind {:#06x}",
+                        kind.0
+                    )))
+                }
             }
         }
     }
